@@ -107,7 +107,7 @@ func (f *g2lFn) inOutResult(resT string, nres int) string {
 	if nres == 1 {
 		parts = []string{g2lPar(resT)}
 	}
-	if nres == 0 { // go2lean_effects.go: a function without result returns its in-out parameters only
+	if nres == 0 && !f.g.cfg.UnitVoid { // go2lean_effects.go: a function without result returns its in-out parameters only
 		parts = nil
 	}
 	for _, v := range f.inOut {
@@ -171,6 +171,9 @@ func (f *g2lFn) mapAssign(x *ast.IndexExpr, val string, ind int) ([]string, bool
 
 // builtinOther: make(map[K]V) and make(map[K]V, n).
 func (f *g2lFn) builtinOther(name string, c *ast.CallExpr) (string, bool) {
+	if s, ok := f.builtinOwn(name, c); ok { // go2lean_own.go: new(T), make([]T, n)
+		return s, true
+	}
 	if name != "make" || len(c.Args) < 1 || !f.g.cfg.Maps {
 		return "", false
 	}
